@@ -108,7 +108,7 @@ def _exh_spec(nr, nc, types, mask):
                 if (mask >> bit) & 1:
                     cells[r][c] = _exh_missing(types[c], r, c)
                 bit += 1
-    return F.FrameSpec(list(range(nr)), ['a', 'b', 'c'][:nc], 'auto', 'str', [_EXH_DT[t] for t in types], cells, 'x')
+    return F.FrameSpec(list(range(nr)), list('abcdefgh')[:nc], 'auto', 'str', [_EXH_DT[t] for t in types], cells, 'x')
 
 
 def _exh_tables(shapes):
@@ -125,6 +125,24 @@ _EXH_OPS = ([(d, lim, ax) for d in ('forward', 'backward') for lim in (0, 1, 2, 
             + [('dropna', ax, cond) for ax in (0, 1) for cond in ('all', 'any')]
             + [('count', ax, sk) for ax in (0, 1) for sk in (True, False)]
             + [('fillna', ('exh', 0))])
+
+
+def _exh_wide_rows():
+    """one-row float frames of 6 and 7 columns, every missing pattern: a row long enough for two separate runs of missing cells inside
+    one block plus a neighbouring block (the state a directional fill carries from block to block is decided by the run next to
+    the edge it leaves by, which differs from the last run it filled only in rows of five or more cells)."""
+    for nc in (6, 7):
+        for mask in range(1 << nc):
+            yield {'kind': 'exh', 'nr': 1, 'nc': nc, 'types': 'f' * nc, 'mask': mask, 'wide': True}
+
+
+def _wide_layouts(nc):
+    lays = [[(j, j + 1, False) for j in range(nc)], [(0, nc, True)]]
+    for k in range(1, nc):
+        lays.append([(0, k, True), (k, nc, True)])
+        lays.append([(0, k, True)] + [(j, j + 1, False) for j in range(k, nc)])
+        lays.append([(j, j + 1, False) for j in range(k)] + [(k, nc, True)])
+    return lays
 
 
 def _exh_series_cases():
@@ -318,6 +336,8 @@ def _enumerated(ctx, rng):
         for case in list(_exh_tables([(nr, nc) for nr in (1, 2, 3) for nc in (1, 2, 3)]))[ctx.shard::ctx.nshards]:
             yield case
     for case in list(_exh_series_cases())[ctx.shard::ctx.nshards]:
+        yield case
+    for case in list(_exh_wide_rows())[ctx.shard::ctx.nshards]:
         yield case
 
 
@@ -678,13 +698,13 @@ def _check_exh(case, ctx):
     models = [_model_frame(t, op) for op in _EXH_OPS]
     shape = f'{nr}x{nc}'
     ctx.tally('exh_tables', shape)
-    if not case.get('sampled'):
+    if not case.get('sampled') and not case.get('wide'):
         ctx.tally('exh_shape_complete', shape)
     ctx.tally('exh_missing_cells', t.n_missing)
-    lays = F.layouts(spec.dtypes)
+    lays = F.layouts(spec.dtypes) if not case.get('wide') else _wide_layouts(nc)
     for lay in lays:
         f = F.build_frame(spec, lay)
-        ctx.tally('exh_layouts', F.layout_name(lay))
+        ctx.tally('exh_layouts', F.layout_name(lay) if not case.get('wide') else 'wide_row')
         _frame_battery(ctx, t, f, lay, _EXH_OPS, models, ('exh', nr, nc, types, mask), {'exh': True})
     for op in _EXH_OPS:
         ctx.tally('ops', 'frame.' + op[0], len(lays))
